@@ -826,7 +826,10 @@ def run_case(ctx, case):
         ctx.fail_exc('open', e, case)
     # (a) holds for every kind of stream: a real file, a memory map and a minimal read/seek/tell object see the same bytes; their seek()
     # fails differently for unrepresentable offsets (ValueError / OSError instead of BytesIO's OverflowError) and may return None
-    for kind in streams.KINDS:
+    import zlib
+    big = any(mu[0] == 'set' and mu[4] >= (1 << 31) for mu in (case.get('muts') or []))
+    # every case with a field beyond 2**31 (where the kinds differ most) and a third of the others
+    for kind in (streams.KINDS if big or zlib.crc32(data) % 3 == 0 else ()):
         try:
             with streams.opened(data, kind) as st2:
                 ELFFile(st2)
